@@ -17,6 +17,40 @@ pub const PASS: &str = "password";
 pub const OTHER_PASS: &str = "passwore";
 pub const MS: u64 = 1_000_000;
 
+/// A credential set: what the client is configured with, and what must appear on the wire / in the key after
+/// OpaqueString enforcement (R-strings).
+#[derive(Clone, Copy, Debug)]
+pub struct Creds {
+    pub user: &'static str,
+    pub pass: &'static str,
+    pub other_pass: &'static str,
+    /// password as it enters the key (enforced)
+    pub pass_key: &'static str,
+    pub other_pass_key: &'static str,
+}
+
+/// 0: short ASCII; 1: a 70-byte user name and a 129-byte password (longer than the 64-byte hash block);
+/// 2: the RFC 5769 Katakana user name and a password that enforcement changes (U+00A0 -> U+0020)
+pub fn creds(c: u8) -> Creds {
+    match c {
+        0 => Creds { user: USER, pass: PASS, other_pass: OTHER_PASS, pass_key: PASS, other_pass_key: OTHER_PASS },
+        1 => Creds {
+            user: crate::menu::long_pass(70, false),
+            pass: crate::menu::long_pass(129, false),
+            other_pass: crate::menu::long_pass(129, true),
+            pass_key: crate::menu::long_pass(129, false),
+            other_pass_key: crate::menu::long_pass(129, true),
+        },
+        _ => Creds {
+            user: "\u{30de}\u{30c8}\u{30ea}\u{30c3}\u{30af}\u{30b9}",
+            pass: "p\u{a0}w",
+            other_pass: "p\u{a0}x",
+            pass_key: "p w",
+            other_pass_key: "p x",
+        },
+    }
+}
+
 #[derive(Clone, Copy, Debug, PartialEq, Eq, Hash, serde::Serialize, serde::Deserialize)]
 pub enum Transport {
     Reliable { timeout_ms: u64 },
@@ -36,9 +70,25 @@ pub struct Cfg {
     pub mech: Mech,
     pub fingerprint: bool,
     pub max_tx: usize,
+    /// credential set (see `creds`)
+    #[serde(default)]
+    pub cred: u8,
+    /// method of every request / indication the harness sends (and of the replies built for them)
+    #[serde(default = "binding")]
+    pub method: u16,
 }
 
+fn binding() -> u16 {
+    1
+}
+
+/// what the caller's buffer holds before a send: never zeros, so bytes the encoder fails to write show up
+pub const DIRTY: u8 = 0xA5;
+
 impl Cfg {
+    pub fn creds(&self) -> Creds {
+        creds(self.cred)
+    }
     pub fn show(&self) -> String {
         format!("{:?}", self)
     }
@@ -59,11 +109,11 @@ impl Cfg {
         b = match self.mech {
             Mech::None => b,
             Mech::ShortTerm(alg) => b.with_mechanism(
-                USER,
-                PASS,
+                self.creds().user,
+                self.creds().pass,
                 CredentialMechanism::ShortTerm(alg.map(|sha| if sha { Integrity::MessageIntegritySha256 } else { Integrity::MessageIntegrity })),
             ),
-            Mech::LongTerm => b.with_mechanism(USER, PASS, CredentialMechanism::LongTerm),
+            Mech::LongTerm => b.with_mechanism(self.creds().user, self.creds().pass, CredentialMechanism::LongTerm),
         };
         if self.fingerprint {
             b = b.with_fingerprint();
@@ -302,16 +352,18 @@ impl World {
     pub fn send(&mut self, app: usize) -> Obs {
         let attrs = self.attrs(app);
         let at = self.instant();
-        let r = guard(|| self.client.send_request(stun_rs::methods::BINDING, attrs, vec![0u8; 2048], at));
-        self.after_send(r, app, true, stun_rs::methods::BINDING)
+        let m = MessageMethod::try_from(self.cfg.method).unwrap();
+        let r = guard(|| self.client.send_request(m, attrs, vec![DIRTY; 2048], at));
+        self.after_send(r, app, true, m)
     }
 
     /// send_request with a caller buffer that is too small for any message (the encode step must fail cleanly)
     pub fn send_tiny(&mut self, app: usize, cap: usize) -> Obs {
         let attrs = self.attrs(app);
         let at = self.instant();
-        let r = guard(|| self.client.send_request(stun_rs::methods::BINDING, attrs, vec![0u8; cap], at));
-        self.after_send(r, app, true, stun_rs::methods::BINDING)
+        let m = MessageMethod::try_from(self.cfg.method).unwrap();
+        let r = guard(|| self.client.send_request(m, attrs, vec![DIRTY; cap], at));
+        self.after_send(r, app, true, m)
     }
 
     pub fn send_method(&mut self, app: usize, method: u16, indication: bool) -> Obs {
@@ -319,16 +371,16 @@ impl World {
         let at = self.instant();
         let m = MessageMethod::try_from(method).unwrap();
         if indication {
-            let r = guard(|| self.client.send_indication(m, attrs, vec![0u8; 2048]));
+            let r = guard(|| self.client.send_indication(m, attrs, vec![DIRTY; 2048]));
             self.after_send(r, app, false, m)
         } else {
-            let r = guard(|| self.client.send_request(m, attrs, vec![0u8; 2048], at));
+            let r = guard(|| self.client.send_request(m, attrs, vec![DIRTY; 2048], at));
             self.after_send(r, app, true, m)
         }
     }
 
     pub fn indicate(&mut self, app: usize) -> Obs {
-        self.send_method(app, 1, true)
+        self.send_method(app, self.cfg.method, true)
     }
 
     fn after_send(&mut self, r: Result<Result<stun_rs::TransactionId, StunAgentError>, String>, app: usize, request: bool, _m: MessageMethod) -> Obs {
